@@ -90,6 +90,51 @@ theorem call_errors (fs : FilterSet) (inc : Bool) (a : FilterArgs) :
         simp only [List.isEmpty_cons, Bool.false_eq_true, if_false, hx]
         cases inc <;> simp [hx']
 
+/-- `exclude(..., deprecated=True)`: without a custom function the flag is one more conjunct of the call's filter; next
+    to a custom function it is stored as a separate exclusion of all deprecated operations (test-pinned behaviour). -/
+theorem exclude_deprecated_meaning (fs fs' : FilterSet) (a : FilterArgs) (h : schemaExclude fs a true = .ok fs') :
+    (a.func = none → ∃ f : Filter, fs' = { fs with excludes := fs.excludes ++ [f] } ∧
+      ∀ (rx : Rx) (c : Ctx), evalFilter rx c f =
+        (c.view.deprecated && conjHolds rx (factsOfCtx c) (argsCriteria a))) ∧
+    (a.func ≠ none → ∃ f : Filter, fs' = { fs with excludes := fs.excludes ++ [[.func .isDeprecated], f] } ∧
+      ∀ (rx : Rx) (c : Ctx), evalFilter rx c f = conjHolds rx (factsOfCtx c) (argsCriteria a)) := by
+  unfold schemaExclude at h
+  simp only [if_true] at h
+  constructor
+  · intro hf
+    simp only [hf] at h
+    obtain ⟨f, hfs, hev⟩ := call_meaning _ _ _ _ h
+    refine ⟨f, by simpa using hfs, ?_⟩
+    intro rx c
+    rw [hev rx c]
+    simp [argsCriteria, funcCriteria, hf, conjHolds, Criterion.holds, factsOfCtx]
+  · intro hf
+    cases hfa : a.func with
+    | none => exact absurd hfa hf
+    | some g =>
+      simp only [hfa] at h
+      cases h1 : addFilter fs false { FilterArgs.none with func := some .isDeprecated } with
+      | error e => simp [h1] at h
+      | ok fs1 =>
+        simp only [h1] at h
+        obtain ⟨ms1, hb1, _, _, _, hfs1⟩ := addFilter_ok _ _ _ _ h1
+        have : ms1 = [.func .isDeprecated] := by
+          have : buildMatchers { FilterArgs.none with func := some .isDeprecated } = .ok [.func .isDeprecated] := rfl
+          rw [this] at hb1
+          cases hb1; rfl
+        subst this
+        obtain ⟨f, hfs, hev⟩ := call_meaning _ _ _ _ h
+        refine ⟨f, ?_, hev⟩
+        subst hfs1
+        simpa using hfs
+
+/-- non-vacuity of `exclude_deprecated_meaning`: both shapes succeed -/
+example : (match schemaExclude FilterSet.empty { FilterArgs.none with method := ⟨some (.one "get".toList), none⟩ } true,
+                 schemaExclude FilterSet.empty (funcArgs (.user 0)) true with
+           | .ok a, .ok b => a.excludes.length == 1 && b.excludes.length == 2
+           | _, _ => false) = true := by
+  decide
+
 /-- Every filter set that the Python API can build (any sequence of `include`/`exclude(..., deprecated=…)` calls
     starting from an empty one) is in normal form. -/
 theorem reachable_filter_sets_normalised (cs : List Call) (fs : FilterSet)
@@ -289,6 +334,9 @@ example :
     (measureStatistic .asFound (fun _ _ => false) FilterSet.empty linkDoc).linksSelected = 1 ∧
     (measureStatistic .asFound (fun _ _ => false) ⟨[], [[.value .method (.one "DELETE".toList)]]⟩ linkDoc).linksSelected = 0 := by
   decide
+
+/-- the hypothesis `WellKeyed` of `statistic_links_agree` holds of that document -/
+example : WellKeyed linkDoc := ⟨by decide, by decide⟩
 
 /-- non-vacuity of `no_rule_for_excluded`: the same document yields an entry rule and a link rule -/
 example : stateMachineRules (fun _ _ => false) FilterSet.empty linkDoc =
